@@ -205,3 +205,5 @@ def run(col, configs, tier):
         from rules import c14, c08
         guarded(col, c14.rule_binary_round, facts)
         guarded(col, c08.rule_mask_shift, facts)
+        from rules import dispatch
+        guarded(col, dispatch.rule_dispatch_table, facts)
